@@ -175,6 +175,37 @@ def handleStat (op : String) (a : List String) (impl : String) : Option Verdict 
         pure (.ok s!"stcli-d{shape.length}-p{p}")
       else pure (.bad model)
     | _ => pure (.bad model)
+  | "st.cmd2", [ks, prs, hd, dl, sh, bs] => do
+    let kinds ← parseKinds ks; let precs ← parseNats prs; let shape ← parseNats sh; let data ← parseBits bs
+    let delim : Char ← if dl == "-" then some ',' else (parseHexBytes dl).bind (fun b => b.head?.map Char.ofNat)
+    let arr : Arr XR := ⟨data, shape⟩
+    match impl.splitOn "|" with
+    | [cls, code, outHex] =>
+      let out ← parseHexBytes outHex
+      let outS := String.ofList (bytesToChars out)
+      match statCli kinds precs (hd == "1") delim arr with
+      | .usage => pure (if cls == "ERR" && code == "1" && out.isEmpty then .ok "stcmd2-usage" else .bad "ERR|1|- (usage error)")
+      | .failed hdr _ =>
+        let expectOut := match hdr with | some h => h ++ "\n" | none => ""
+        pure (if cls == "ERR" && code == "1" && outS == expectOut then .ok s!"stcmd2-failed-{if hdr.isSome then "header-written" else "no-output"}"
+              else .bad s!"ERR|1|{expectOut}")
+      | .done hdr row =>
+        let lines := outS.splitOn "\n"
+        let (hdrOk, rowLine) : Bool × String := match hdr, lines with
+          | some h, [l0, l1, ""] => (l0 == h, l1)
+          | none, [l1, ""] => (true, l1)
+          | _, _ => (false, "")
+        let toks := rowLine.splitOn (String.singleton delim)
+        let valsOk := toks.length == row.length && (List.zipWith (fun (t : String) (kvp : StatKind × (StatVal XR × Nat)) =>
+            match parseF64 t.toList with
+            | some b =>
+              let p := kvp.2.2
+              let decOk := if p == 0 then !(t.toList.contains '.') || !(f64OfBits b).isFinite else ((t.splitOn ".").getD 1 "").length == p || !(f64OfBits b).isFinite
+              decOk && valAgrees (f64OfBits b) (1 / (2 * ((10 ^ p : Nat) : Rat))) kvp.2.1 (floorOf kvp.1 data) (dScaleOf kvp.1 data)
+            | none => false) toks (kinds.zip row)).all id
+        pure (if cls == "OK" && code == "0" && hdrOk && valsOk then .ok s!"stcmd2-done-{if hdr.isSome then "header" else "noheader"}-{if precs.length == 1 then "oneprec" else "precs"}"
+              else .bad s!"OK|0|{hdr.getD ""} + {row.length} values")
+    | _ => pure (.bad "CLASS|code|stdout")
   | "st.rel", [rel, kn, sh, bs, par] => do
     let k ← kindOfName kn; let shape ← parseNats sh; let data ← parseBits bs
     let arr : Arr XR := ⟨data, shape⟩
